@@ -56,9 +56,12 @@ def run(tier):
         gs, res = members(fam)
         states += res.distinct
         gen += res.generated
+        fam_ids = rnd.sample(range(1, 900), 9)         # atom-map numbers must be positive and < 1000
         for gj in gs[::step]:
             n_graphs += 1
-            ids = rnd.sample(range(1, 900), 9)         # atom-map numbers must be positive and < 1000
+            # the members of one family share their identifiers (equal descriptors in other spellings are
+            # exported one after the other in one process), every fourth member gets fresh ones
+            ids = fam_ids if n_graphs % 4 else rnd.sample(range(1, 900), 9)
             idm = IdMap({k + 1: ids[k] for k in range(9)})
             g = iso.shuffled_build(gj, idm, rnd)
             before, _ = project(g, idm)
